@@ -123,6 +123,9 @@ class CallMixin:
         if isinstance(v, App):
             if isinstance(v.fn, ClassRef):
                 return {v.fn.qual}
+            fi = self.repo.funcs.get(v.fname)
+            if fi is not None and getattr(fi.node, "returns", None) is not None:
+                return self.ann_classes(fi.module, fi.node.returns)
             return set()
         a = self.ann_of(v, _d)
         if a:
@@ -417,6 +420,9 @@ class CallMixin:
                 fields.update({k: v for k, v in kwargs.items() if not k.startswith("**")})
             frozen = any("frozen=True" in d.replace(" ", "") or d in ("element", "message") for d in decos)
             o = Obj(qual, fields, args, kwargs, frozen=frozen and is_dc)
+            init = repo.find_method(qual, "__init__") if not is_dc else None
+            if init is not None and self.should_inline(init, fr) and not any(isinstance(x, Star) for x in args):
+                self.call_function(init, args, kwargs, node, fr, self_value=o)
             return o
         return Obj(qual, {}, args, kwargs)
 
